@@ -147,11 +147,15 @@ def float_buffers(prog, rep):
                       "(every density / probability below 1 is truncated)")
 
 
+_MINS = (G("min"), G("numpy.minimum"), G("numpy.fmin"), G("numpy.clip"))
+
+
 def lower_limits(prog, rep):
     for q in (f"{JM}.MultivariateModel.cdf", f"{GHM}.marginal_pdf", f"{GHM}.marginal_cdf"):
         fn = prog.func(q)
         b = builder(prog, fn, inline=False)
         zero_lo = []
+        bare_hi = []
         for st in cfg_of(fn).all_stmts():
             for n in ast.walk(st) if isinstance(st, (ast.Assign, ast.Expr, ast.Return, ast.AugAssign)) else []:
                 if isinstance(n, ast.Call):
@@ -161,10 +165,20 @@ def lower_limits(prog, rep):
                         r = bd.get("ranges")
                         if r is not None and any(w == ("const", 0) for w in walk(r)):
                             zero_lo.append(st)
+                        if r is not None and any(w[0] == "tuple" and len(w[1]) == 2 and mentions(w[1][1], P("x")) and not (w[1][1][0] == "call" and w[1][1][1] in _MINS)
+                                                 for w in walk(r) if isinstance(w, tuple) and w):
+                            bare_hi.append(st)
         rep.check(not zero_lo, "C06.limits", f"{q}:lower-limit", fn.where(zero_lo[0]) if zero_lo else fn.where(),
                   "the integration starts at the lower end of the support",
                   "the density is integrated from the constant 0: for a variable that can be negative (X0 ~ Normal(0, 1), X1 | X0 ~ Normal(x0, 1)) cdf([[0, 0]]) "
                   "returns 0.0 (true 0.375) and marginal_cdf([-1, 0, 1], 1) returns [-0.096, 0, 0.164] (true [0.24, 0.5, 0.76])")
+        if q.endswith("marginal_pdf"):
+            continue    # integrates the OTHER variables only
+        rep.check(not bare_hi, "C06.limits", f"{q}:upper-limit", fn.where(bare_hi[0]) if bare_hi else fn.where(),
+                  "the integration ends where the mass ends (the point, or the upper end of the variable's range if that is lower)",
+                  "the density is integrated up to the point itself, however far beyond the mass it lies: the quadrature nodes of (0, 1000) all miss a density "
+                  "that lives in (0, 0.1) - Hs / steepness model: cdf([[100, 100]]) = 0.0 while cdf([[10, 10]]) = 0.99999, marginal_cdf([100, 1000], 1) = [0, 0] while "
+                  "marginal_cdf(1.) = 0.999997: not monotone, and 0 where 1 is due")
 
 
 def finite(prog, rep):
@@ -406,10 +420,10 @@ def argorder(prog, rep):
                     inf_lim = ("bin", "*", ("list", (("tuple", (("const", 0), G("numpy.inf"))),)), ("bin", "-", nd, ("const", 1)))
                     others = ao[2] if okao else None
 
-                    def own_ranges(r0):
+                    def own_ranges(r0, kind="range"):
                         """the ranges of the n_dim - 1 integrated variables: one range per position, each from the variable's own quantiles
                         (decided in the factory, _range_factory); the fixed (0, inf) of the original code is named as the defect"""
-                        if algebra.same(r0, inf_lim):
+                        if kind == "range" and algebra.same(r0, inf_lim):
                             rep.fail("C06.ranges", f"{q}:holds-the-mass", fn.where(st),
                                      "every integrated variable gets the fixed range (0, inf): QUADPACK maps it onto a fixed set of nodes, and a density that is narrow "
                                      "against its location (a conditioning variable with a coefficient of variation below ~5 %: pressure ~ Weibull(35, 3, 980)) falls between "
@@ -426,13 +440,13 @@ def argorder(prog, rep):
                         ord_t, pos_t, dim_t = el[2]
                         full = ("bin", "+", others, ("list", (DIM,))) if others is not None else None
                         ord_ok = others is not None and ord_t in (others, ("sub", full, ("slice", NONE, ("const", -1), NONE)))
-                        rep.check(ord_ok and pos_t == pos and dim_t == DIM, "C06.ranges", f"{q}:positions", fn.where(st),
+                        rep.check(ord_ok and pos_t == pos and dim_t == DIM, "C06.ranges", f"{q}:positions" + ("" if kind == "range" else ":points"), fn.where(st),
                                   "range k is built for position k of the integration order, with the order and dim the integrand uses",
                                   f"the ranges must be built for positions 0 .. n_dim - 2 of the SAME integration order the integrand is wrapped for (and the same dim); found {show(el)[:160]}")
                         fac = prog.lookup_method(fn.cls, el[1][2])
                         if fac is None:
                             return False
-                        _range_factory(prog, rep, fac)
+                        _range_factory(prog, rep, fac, kind)
                         return True
                     if name == "marginal_pdf":
                         a = bd.get("args") if bd else None
@@ -448,6 +462,16 @@ def argorder(prog, rep):
                             okc = last[0] == "tuple" and len(last[1]) == 2 and algebra.same(last[1][0], ("const", 0)) and last[1][1][0] == "sub" and last[1][1][1] == P("x")
                             xi = last[1][1][2] if okc else None
                         why = f"marginal_cdf must integrate the others over (0, inf) and the LAST range (the dim'th variable) over (0, x_i); found {show(r)[:200] if r else None}"
+                    # a range of extreme quantiles spans many orders of magnitude for a long-tailed variable: the quadrature needs break points inside it
+                    o = bd.get("opts") if bd else None
+                    if name != "marginal_pdf" and o is not None and o[0] == "bin" and o[1] == "+" and o[3][0] == "list" and len(o[3][1]) == 1:
+                        o = o[2]      # + [options of the own variable]
+                    sub_ok = o is not None and own_ranges(o, "points")
+                    rep.check(sub_ok, "C06.ranges", f"{q}:subdivided", fn.where(st), "nquad gets break points (opts) for every range of extreme quantiles",
+                              "each variable is integrated by one adaptive quad over its 1e-12 .. 1 - 1e-12 quantile range, without break points: for X0 ~ LogNormal(1, 1) the range is "
+                              "(0.0024, 3075) and the integrand of X1 | X0 ~ LogNormal(mu = 1 + 0.5 ln x0, sigma = 0.05) is a narrow ridge near x0 = 3 that every Gauss-Kronrod node misses - "
+                              "marginal_pdf at the 5/25/50/75 % quantiles = [1.9e-75, 2.1e-17, 4.1e-9, 5.9e-10] (true [0.105, 0.198, 0.177, 0.101]), marginal_cdf(median) = 1.7e-10, no "
+                              "warning; pass quantiles of the variable as quad break points (opts=[{'points': ...}])")
                     if okc:
                         # result stored at the index of its own point
                         okc = _result_rows(fn, b, t) == [xi]
@@ -470,18 +494,29 @@ def _num(t):
     return None
 
 
+def _flat_list(t):
+    """the elements of a literal list / tuple, or of a concatenation (+) of such; None otherwise"""
+    if t[0] in ("list", "tuple"):
+        return list(t[1])
+    if t[0] == "bin" and t[1] == "+":
+        a, b_ = _flat_list(t[2]), _flat_list(t[3])
+        return None if a is None or b_ is None else a + b_
+    return None
+
+
 _range_done = set()
 
 
-def _range_factory(prog, rep, fac):
+def _range_factory(prog, rep, fac, kind="range"):
     """fac(integral_order, position, dim) returns the range callable nquad calls with (values of the variables integrated further out..., value of
     variable dim).  Decided here: the range is the pair of extreme quantiles of THE variable at that position (its own distribution), given the value of
     ITS conditioning variable read from the argument position that variable has in what nquad hands over."""
     q = fac.qualname
-    if q in _range_done:
+    if (q, kind) in _range_done:
         return
-    _range_done.add(q)
+    _range_done.add((q, kind))
     rep.analysed(fac)
+    tag = "" if kind == "range" else ":points"
     pp = [p_ for p_ in fac.positional_params if p_ != "self"]
     if len(pp) != 3:
         raise AnalysisError(f"{q}: expected (integral_order, position, dim)")
@@ -515,6 +550,16 @@ def _range_factory(prog, rep, fac):
             t = bi.term(irets[-1].value, irets[-1]) if len(irets) == 1 else NONE
             if a_ != ARGS:
                 t = subst(t, {a_: ARGS})
+            if kind == "points":
+                # the options of one variable: a dict whose 'points' are break points for quad
+                ent = dict(t[1]) if t[0] == "dict" else {}
+                pt = ent.get(("const", "points"))
+                if pt is None:
+                    shape_ok = False
+                    continue
+                for pl_, palt in _ta(pt):
+                    pairs.append((tuple(pf.of(r_)) + tuple(fl) + tuple(pl_), palt, None))
+                continue
             if not (t[0] == "tuple" and len(t[1]) == 2):
                 shape_ok = False
                 continue
@@ -529,18 +574,26 @@ def _range_factory(prog, rep, fac):
     if ok_q:
         seen_plain = seen_given = False
         for ll, lo, hi in pairs:
-            if not (lo[0] == "sub" and hi[0] == "sub" and lo[2] == ("const", 0) and hi[2] == ("const", 1) and lo[1] == hi[1]):
+            if kind == "points":
+                c = lo
+            elif not (lo[0] == "sub" and hi[0] == "sub" and lo[2] == ("const", 0) and hi[2] == ("const", 1) and lo[1] == hi[1]):
                 ok_q = False
                 continue
-            c = lo[1]
+            else:
+                c = lo[1]
             if not (c[0] == "call" and c[1] == ("attr", DIST, "icdf") and len(c[2]) == 1):
                 ok_q = False
                 why_q = f"the limits must be quantiles of the distribution of the variable at this position (self.distributions[integral_order[position]].icdf); found {show(c)[:160]}"
                 continue
             pr = c[2][0]
             pr = pr[2][0] if pr[0] == "call" and pr[1] in (G("numpy.array"), G("numpy.asarray")) and len(pr[2]) == 1 else pr
-            vals = [_num(x) for x in pr[1]] if pr[0] in ("list", "tuple") and len(pr[1]) == 2 else [None]
-            ok_p = ok_p and None not in vals and 0 < vals[0] <= 1e-6 and 1 - 1e-6 <= vals[1] < 1
+            if kind == "points":
+                items = _flat_list(pr)
+                vals = [_num(x) for x in items] if items else [None]
+                ok_p = ok_p and None not in vals and all(0 < v < 1 for v in vals) and min(vals) <= 1e-3 and max(vals) >= 1 - 1e-3 and any(0.25 <= v <= 0.75 for v in vals)
+            else:
+                vals = [_num(x) for x in pr[1]] if pr[0] in ("list", "tuple") and len(pr[1]) == 2 else [None]
+                ok_p = ok_p and None not in vals and 0 < vals[0] <= 1e-6 and 1 - 1e-6 <= vals[1] < 1
             kw = dict(c[3])
             lits = {_dg(l) for l in ll}
             if "given" in kw:
@@ -561,6 +614,12 @@ def _range_factory(prog, rep, fac):
                     ok_g = False
                     why_g = "the unconditional quantiles may be used only where the variable is not conditional (conditional_on[idx] is None)"
         ok_g = ok_g and seen_plain and seen_given
+    if kind == "points":
+        rep.check(ok_q, "C06.ranges", f"{q}:points:own-quantiles", fac.where(), "the break points of a variable are quantiles of its own distribution", why_q)
+        rep.check(ok_p, "C06.ranges", f"{q}:points:levels", fac.where(), "break points in both tails (<= 1e-3, >= 1 - 1e-3) and in the bulk",
+                  "the levels of the break points must lie strictly between 0 and 1 and cover both tails (one <= 1e-3, one >= 1 - 1e-3) and the bulk (one in [0.25, 0.75])")
+        rep.check(ok_g, "C06.ranges", f"{q}:points:given", fac.where(), "conditional quantiles given the value nquad passes for the conditioning variable", why_g)
+        return
     rep.check(ok_q, "C06.ranges", f"{q}:own-quantiles", fac.where(), "the range of a variable is (icdf(p_lo), icdf(p_hi)) of its own distribution", why_q)
     rep.check(ok_p, "C06.ranges", f"{q}:probabilities", fac.where(), "p_lo <= 1e-6 and p_hi >= 1 - 1e-6", "the two quantile levels must leave out a negligible mass only (p_lo <= 1e-6, p_hi >= 1 - 1e-6)")
     rep.check(ok_g, "C06.ranges", f"{q}:given", fac.where(), "conditional quantiles given the value nquad passes for the conditioning variable", why_g)
